@@ -321,6 +321,8 @@ def oob_class(job, run):
 
 def execute_job(pt, model, job):
     """compile + run everything; returns a result dict with the issues found"""
+    if job["kind"] in SPECIAL_KINDS:
+        return execute_special(pt, model, job)
     out = {"id": job.get("id"), "issues": [], "runs": 0, "in_ok": 0, "oob_fail": 0, "oob_known": {}, "bad_agree": 0, "compile": None, "samples": []}
     want_err = expected_compile_error(job)
     r = compile_job(pt, job)
@@ -386,4 +388,127 @@ def execute_job(pt, model, job):
         else:  # malformed bytes: only the correspondence speaks
             if agree:
                 out["bad_agree"] += 1
+    return out
+
+
+# ---------------------------------------------------------------------------------------------
+# special programs (round 6): several NamedTuple classes sharing field names; one ComputedValue handle used twice
+# ---------------------------------------------------------------------------------------------
+SPECIAL_KINDS = ("multinamed", "handle")
+_mn_counter = [0]
+
+
+def build_special(pt, job):
+    from pyteal import abi
+    kind = job["kind"]
+    backend = job.get("backend", "scratch")
+    A = pt.Txn.application_args
+
+    def logv(x):
+        return pt.Log(x.encode())
+
+    def use_(e, m):
+        if m == "use":
+            return e.use(lambda x: logv(x))
+        out = e.produced_type_spec().new_instance()
+        return pt.Seq(e.store_into(out), logv(out))
+
+    if kind == "multinamed":
+        # classes: [{"names": [...], "ts": [...]}]; order: class numbers in instantiation order (repeats = throw-away
+        # instances); access: [(class, field name, "use"|"store")]; argument c holds the encoding of class c's value
+        classes = []
+        for cd in job["classes"]:
+            _mn_counter[0] += 1
+            anns = {n: abi.Field[AB.to_pyteal(tj(t)).annotation_type()] for n, t in zip(cd["names"], cd["ts"])}
+            classes.append(type("MN%d" % _mn_counter[0], (abi.NamedTuple,), {"__annotations__": anns}))
+        ncls = len(classes)
+
+        def routine(srcs):
+            insts = {}
+            for c in job["order"]:
+                x = classes[c]()
+                insts.setdefault(c, x)
+            for c in range(ncls):
+                insts.setdefault(c, classes[c]())
+            seq = [insts[c].decode(srcs[c]) for c in range(ncls)]
+            for (c, name, m) in job["access"]:
+                seq.append(use_(getattr(insts[c], name), m))
+            return pt.Seq(*seq)
+        nargs = ncls
+        srcs_main = [A[c] for c in range(ncls)]
+    else:
+        t = job["t"]
+        spec = AB.to_pyteal(t)
+        p0, p1 = job.get("pattern", ["use", "use"])
+        hv = job["handle"]
+
+        def routine(srcs):
+            a, b = srcs
+            v = spec.new_instance()
+            e = v[job["i"]] if job["base"] == "tuple" else v[pt.Btoi(A[1])]
+            if hv == "redecode":
+                return pt.Seq(v.decode(a), use_(e, p0), v.decode(b), use_(e, p1))
+            if hv == "branches":
+                return pt.Seq(v.decode(a), pt.If(A[3] == pt.Bytes("x")).Then(use_(e, p0)).Else(use_(e, p1)))
+            if hv == "loop":
+                cnt = pt.ScratchVar(pt.TealType.uint64)
+                return pt.Seq(v.decode(a), use_(e, p0),
+                              pt.For(cnt.store(pt.Int(0)), cnt.load() < pt.Int(2), cnt.store(cnt.load() + pt.Int(1))).Do(pt.Seq(v.decode(b), use_(e, p1))))
+            raise ValueError(hv)
+        nargs = 2
+        srcs_main = [A[0], A[2]]
+
+    if backend == "scratch":
+        return pt.Seq(routine(srcs_main), pt.Approve())
+    names = ["a%d" % k for k in range(nargs)]
+
+    def f(*args):
+        return routine(list(args))
+    # a function with nargs positional Expr parameters
+    ns = {}
+    exec("def acc(%s):\n    return _f(%s)" % (", ".join(names), ", ".join(names)), {"_f": f}, ns)
+    acc = ns["acc"]
+    acc.__annotations__ = dict({n: pt.Expr for n in names}, **{"return": pt.Expr})
+    sub = pt.Subroutine(pt.TealType.none)(acc)
+    return pt.Seq(sub(*srcs_main), pt.Approve())
+
+
+def execute_special(pt, model, job):
+    out = {"id": job.get("id"), "issues": [], "runs": 0, "in_ok": 0, "oob_fail": 0, "oob_known": {}, "bad_agree": 0, "compile": None, "samples": []}
+
+    def go():
+        be = job.get("backend", "scratch")
+        opt = None if be == "scratch" else pt.OptimizeOptions(frame_pointers=(be != "subscratch"))
+        return pt.compileTeal(build_special(pt, job), pt.Mode.Application, version=job["ver"], optimize=opt)
+    r = call_real(go)
+    if r[0] != "ok":
+        out["compile"] = r[1]
+        out["issues"].append({"kind": "crash" if r[1] not in PYTEAL_ERRORS else "semantic",
+                              "why": "a valid access program is rejected / crashes at build or compile time: %s: %s" % (r[1], r[2][:200]), "run": job["runs"][0]})
+        return out
+    out["compile"] = "ok"
+    teal = r[1]
+    for run in job["runs"]:
+        args = tuple(bytes.fromhex(h) for h in run["args"])
+        ctx = (S("ctx"), (S("mode"), S("app")), (S("group"), ((S("fields"), ("NumAppArgs", len(args))), (S("arrays"), ("ApplicationArgs", args)))), (S("fuel"), 8000))
+        res = model.ask((S("run"), ctx, teal))
+        out["runs"] += 1
+        if not isinstance(res, list) or not res or res[0] != S("ran") or not hasattr(res[1], "name") or res[1].name not in ("approve", "fail", "reject"):
+            out["issues"].append({"kind": "avm", "why": "AVM run inconclusive: %r" % (res,)[:120], "run": run})
+            continue
+        verdict = res[1].name
+        logs = [e[1] if isinstance(e[1], bytes) else (e[1].encode("latin-1") if isinstance(e[1], str) else b"") for e in res[3][1:] if e[0] == S("log")]
+        real = [l_.hex() for l_ in logs] if verdict == "approve" else "fail"
+        rec = {"run": run, "real": real, "teal": teal}
+        if run["tag"] == "in":
+            if real == run["expects"]:
+                out["in_ok"] += 1
+            else:
+                out["issues"].append(dict(rec, kind="semantic", expect=run["expects"],
+                                          why="the program logs %s, expected the components' reference encodings %s" % (real, run["expects"])))
+        else:
+            if real == "fail":
+                out["oob_fail"] += 1
+            else:
+                out["issues"].append(dict(rec, kind="oob", cls=None, why="out-of-range index %s: the program logs %s instead of failing" % (run.get("idx"), real)))
     return out
